@@ -604,7 +604,7 @@ func init() {
 	fw.Register(&fw.Check{
 		ID:    "C18",
 		Level: "model_checking",
-		Rule: "(a) expression trees with identifiers from {a, A, b, \"a b\", Max, \"Max\", if} in every syntactic position (operand, call argument, call name, index, next to equal string constants), 4 printing styles, plus sums of k distinct identifiers and identifiers of k characters for k up to 129: VariableNames() vs the variable leaves in order of first occurrence; automatic variables with three pre-populations of the default collection, and the same through the CreateVariables entry point on a caller's collection with automatic variables off; automatic variables off => VAR_NOT_FOUND/FUNC_NOT_FOUND naming the identifier; every call expression with an explicit empty function collection => FUNC_NOT_FOUND; " +
+		Rule: "(a) expression trees with identifiers from {a, A, b, \"a b\", Max, \"Max\", if} in every syntactic position (operand, call argument, call name, index, next to equal string constants), 4 printing styles, plus sums of k distinct identifiers and identifiers of k characters for k up to 129: VariableNames() vs the variable leaves in order of first occurrence; automatic variables with three pre-populations of the default collection, and the same through the CreateVariables entry point on a caller's collection with automatic variables off; automatic variables off => VAR_NOT_FOUND/FUNC_NOT_FOUND naming the identifier; every call expression with an explicit empty function collection => FUNC_NOT_FOUND; a variable removed by a function of the expression between two reads of its name is missing (or resolves to the other letter-case entry) at the later read; " +
 			"(b) every sequence of <=3 (thorough 4) template pieces (all section spellings, text containing the words if/unless): MustacheParser.VariableNames(), default-variable creation and CreateVariables on a caller's map; (c) every history up to the depth bound over 15 operations (incl. a caller writing in place into the value object of the first / last entry) on VariableCollection and FunctionCollection against an ordered-list model (first match wins, case-insensitive); non-trivial = >=2 variables / histories of >=2 steps",
 		Assume: []string{"names differing only in letter case may be merged or reported separately", "Remove(i) with i out of range is not exercised"},
 		Spaces: func(tier string) []fw.Space {
@@ -615,7 +615,17 @@ func init() {
 			}
 			k := len(c18Ops)
 			np := len(c18Pieces)
+			// a variable removed (by a function of the expression) between two reads of its name: the later
+			// read is a missing variable, or finds the other letter-case entry that is now the first one
+			missing := []*enode{
+				eBin("+", eBin("+", eVar("a"), eCall("D")), eVar("a")),
+				eBin("+", eBin("+", eVar("a"), eCall("D")), eVar("A")),
+				eCall("F", eVar("A"), eCall("D"), eVar("a")),
+				eBin("-", eVar("b"), eBin("*", eCall("D"), eVar("a"))),
+			}
 			return []fw.Space{
+				{Name: "removed-during-evaluation", N: int64(len(missing)), Run: func(c *fw.Ctx, i int64) { c01Run(c, missing[i], tier) },
+					Repr: func(i int64) string { return fmt.Sprintf("expression %q where D() removes the variable a from the collection in use", missing[i].print(printStyle{})) }},
 				{Name: "expression-discovery", N: int64(len(trees) * 4), Run: func(c *fw.Ctx, i int64) { c18Expr(c, trees[i/4], int(i%4)) },
 					Repr: func(i int64) string { return fmt.Sprintf("expression %q", trees[i/4].print(c01Styles[i%4])) }},
 				{Name: "template-discovery", N: countStrings(np, tl), Run: func(c *fw.Ctx, i int64) { c18Template(c, seqByIndex(np, i)) },
